@@ -39,6 +39,10 @@ fn statements2(joined: &str) -> Vec<String> {
         format!("SELECT COUNT(*), MAX(v) FROM t OUTER JOIN u::'{}' ON u.k = t.k", joined),
         format!("SELECT t.k, v, y FROM t OUTER JOIN u::'{}' ON t.k = u.k", joined),
         format!("SELECT DISTINCT y FROM t INNER JOIN u::'{}' ON t.k = u.k WHERE v > 1", joined),
+        // WHERE over a joined column: of the two partners of key a the first / the last one is rejected
+        format!("SELECT t.k, COUNT(*), SUM(y) FROM t INNER JOIN u::'{}' ON t.k = u.k WHERE y < 2 GROUP BY t.k", joined),
+        format!("SELECT t.k, COUNT(*), MAX(v) FROM t INNER JOIN u::'{}' ON t.k = u.k WHERE y > 1 GROUP BY t.k", joined),
+        format!("SELECT COUNT(*), SUM(y) FROM t OUTER JOIN u::'{}' ON t.k = u.k WHERE y IS NULL OR y < 2", joined),
     ]
 }
 
@@ -152,9 +156,11 @@ pub fn run(ctx: &Ctx) -> i32 {
     // preceded by the clear-screen sequence) must be the sequence of tables of the engine-level incremental run, and the
     // last one the batch result
     {
-        let al = jlines();
-        let fstmts = ["SELECT k, COUNT(*), SUM(v) FROM t GROUP BY k", "SELECT COUNT(*), MAX(s) FROM t", "SELECT k, COUNT(*) FROM t GROUP BY k HAVING MAX(v) < 3", "SELECT DISTINCT COUNT(*) FROM t GROUP BY k", "SELECT k, v FROM t WHERE v > 1"];
+        let jstmts: Vec<&str> = vec!["SELECT k, COUNT(*), SUM(v) FROM t GROUP BY k", "SELECT COUNT(*), MAX(s) FROM t", "SELECT k, COUNT(*) FROM t GROUP BY k HAVING MAX(v) < 3", "SELECT DISTINCT COUNT(*) FROM t GROUP BY k", "SELECT k, v FROM t WHERE v > 1"];
+        // a regex table whose pattern is anchored at the end of the line (lines ending in a blank, empty lines)
+        let rstmts: Vec<&str> = vec!["SELECT k, COUNT(*), SUM(v) FROM d GROUP BY k", "SELECT k, v FROM d", "SELECT DISTINCT v, length(input) FROM d"];
         let mut nf = 0u64;
+        for (def, al, fstmts) in [(JDEF, jlines(), jstmts), (RDEF, rlines(), rstmts)] {
         let kq = al.len() as u64;
         for idx in 0..seq_count(kq, 3) {
             let hist = seq_decode(idx, kq, 3);
@@ -163,7 +169,7 @@ pub fn run(ctx: &Ctx) -> i32 {
             }
             let lines: Vec<&str> = hist.iter().map(|i| al[*i as usize]).collect();
             let chunks: Vec<Vec<u8>> = lines.iter().map(|l| format!("{}\n", l).into_bytes()).collect();
-            for text in fstmts {
+            for text in fstmts.iter().copied() {
                 let st = sut::parse(text).unwrap();
                 let expected: Vec<Vec<String>> = match sut::run_incremental(&tables, &st, &lines) {
                     Outcome::Ok(steps) => steps.iter().filter_map(|s| s.table.as_ref()).map(|t| {
@@ -174,7 +180,7 @@ pub fn run(ctx: &Ctx) -> i32 {
                     }).collect(),
                     _ => continue,
                 };
-                let (delivered, end, ok) = crate::checks::c10::follow_child_def(true, b"", &chunks, text, -1, Some(JDEF));
+                let (delivered, end, ok) = crate::checks::c10::follow_child_def(true, b"", &chunks, text, -1, Some(def));
                 // split the printed lines into tables at the clear-screen sequence (aggregates); non-aggregates: one table per row batch
                 let mut got: Vec<Vec<String>> = Vec::new();
                 if st.is_aggregate() {
@@ -208,7 +214,8 @@ pub fn run(ctx: &Ctx) -> i32 {
                 }
             }
         }
-        col.layer("FollowFileExecutor tables (child processes)", nf, true, json!({"statements": fstmts.len(), "max_history": 3}));
+        }
+        col.layer("FollowFileExecutor tables (child processes)", nf, true, json!({"statements": 8, "tables": ["JSON t", "regex d (end-anchored pattern, lines ending in a blank, empty lines)"], "max_history": 3}));
     }
     finish(
         ctx,
